@@ -1,12 +1,14 @@
 #!/bin/sh
 # Builds the harness offline so that the first check does not pay for compilation.
-set -e
+# Only a failure to build the shared runtime is fatal; a property package that does not
+# build is reported here and again (as INCONCLUSIVE) by its own check.
 export GOFLAGS=-mod=mod GOPROXY=off GOSUMDB=off GOTOOLCHAIN=local GOWORK=off
-cd /verif/harness
-go build ./... 
-go vet ./vlib >/dev/null 2>&1 || true
+cd /verif/harness || exit 1
+go build -tags verif ./vlib ./gobatch/... ./progen || exit 1
 for d in c[0-9][0-9]; do
   [ -f "$d/check.json" ] || continue
-  go test -c -vet=off -tags verif -o /dev/null "./$d" || echo "setup: cannot prebuild $d (the check will report it)"
+  race=""
+  grep -q '"race": *true' "$d/check.json" && race="-race"
+  go test -c -vet=off -tags verif $race -o /dev/null "./$d" >/dev/null 2>&1 || echo "setup: cannot prebuild $d (its check will report it)"
 done
 echo setup ok
